@@ -29,6 +29,7 @@ def run(ctx):
             rel.append((s, ('A', s[1], ('U', False, tuple(s[2])))))
             rel.append((('T', True, s[2]), ('A', False, ('U', False, tuple(s[2])))))
     rel = [(vlib.norm_sh(a), vlib.norm_sh(b)) for a, b in rel] + vlib.structured_pairs(stride=1 if ctx.tier != 'quick' else 2)
+    rel += [(parse_sh(a), parse_sh(b)) for a, b in vlib.scale_shape_pairs()]      # scale / rare-feature stream
     lines2 = ["subset\t%s\t%s" % (sh_str(a), sh_str(b)) for a, b in rel]
     mi2, _ = ctx.correspond(lines2, "is_subset random related deep pairs + structured level-2 pairs", nt)
     # ---- oracle: accepted pairs, witnesses of a against b
@@ -54,6 +55,8 @@ def run(ctx):
     shapes += [parse_sh(r[3:]) for r in inf if r.startswith("OK ")]
     shapes = list({sh_str(s): s for s in shapes}.values())
     pairs = [(s, d) for s in shapes for d in ctx.rng.sample(docs, 25)]
+    fams, pools_ = vlib.scale_families(), vlib.scale_shape_pools()
+    pairs += [(parse_sh(t), doc_str(d)) for k in fams for t in pools_.get(k, []) for d in fams[k]]   # shape x document inside a scale family
     ls = ["superset\t%s\t%s" % (sh_str(s), d) for s, d in pairs]
     lc = ["superset_checked\t%s\t%s" % (sh_str(s), d) for s, d in pairs]
     r1, _ = ctx.correspond(ls, "is_superset", lambda l, r: r == "BOOL 1")
